@@ -530,12 +530,15 @@ def _check_composite_mv(ck, table, comp, add) -> None:
             ('sub', ('attr', ('var', s), 'operands'), ('slice', ('none',), ('none',), ('const', '-1'))),
         )
         tgt = loop.target.id if isinstance(loop.target, ast.Name) else None
-        threads = any(
-            isinstance(st, ast.Assign) and len(st.targets) == 1 and isinstance(st.targets[0], ast.Name) and st.targets[0].id == x
-            and term(st.value) in (('apply', ('var', tgt), ('var', x)), ('call', ('var', tgt), (('var', x),), ()))
-            for st in loop.body
-        )
-        returns_x = any(isinstance(st, ast.Return) and isinstance(st.value, ast.Name) and st.value.id == x for st in fn.body)
+        # the threaded value: the input itself, or a local initialised with it before the loop
+        from ..paths import Path as _Path
+
+        pre_env = path_env(_Path([('stmt', st) for st in fn.body[: fn.body.index(loop)] if isinstance(st, (ast.Assign, ast.AnnAssign))]))
+        carriers = [x] + [k for k, v in pre_env.items() if v == ('var', x)]
+        after = path_env(_Path([('stmt', st) for st in loop.body if isinstance(st, (ast.Assign, ast.AnnAssign, ast.AugAssign))]))
+        carrier = next((v for v in carriers if after.get(v) in (('apply', ('var', tgt), ('var', v)), ('call', ('var', tgt), (('var', v),), ()))), None)
+        threads = carrier is not None
+        returns_x = any(isinstance(st, ast.Return) and isinstance(st.value, ast.Name) and st.value.id == carrier for st in fn.body)
         good = rev and threads and returns_x
         why = f'iterates {show(it)}' + ('' if threads else ', does not thread x through each operand') + ('' if returns_x else ', does not return the threaded value')
     ck.expect('S7', good, fn, 'x is threaded through the operands last-to-first (rightmost operand applied first)',
